@@ -168,6 +168,9 @@ class OracleDRO:
     def square(self, e):
         return OAtom('square', e)
 
+    def exp(self, e):
+        return OAtom('exp', e)
+
     def maxof(self, *pieces):
         return OAtom('max', [parr(p) for p in pieces])
 
@@ -334,6 +337,9 @@ class RealDRO:
 
     def square(self, e):
         return self.rso.square(e)
+
+    def exp(self, e):
+        return self.rso.exp(e)
 
     def maxof(self, *pieces):
         return self.rso.maxof(*pieces)
